@@ -537,6 +537,108 @@ def install():
     logging.indent = 2
 
 
+class _SpecialOs:
+    """Stands in for `os` inside the repository's modules: urandom() returns values of the requested length whose FIRST / LAST octets are the ones ordinary random draws
+    almost never produce (0x00, 0xff, top bit set or clear, a zero in the middle), a counter keeps them distinct. Everything else is the real module's."""
+    SHAPES = ('lead00', 'trail00', 'leadff', 'trailff', 'lead0000', 'mid00', 'top', 'lead00trail00', 'allff-ish', 'random')
+
+    def __init__(self, seed, shapes=None):
+        self._r, self._k, self.shapes, self.drawn = random.Random(seed), 0, tuple(shapes or self.SHAPES), collections.Counter()
+
+    def __getattr__(self, n):
+        return getattr(os, n)
+
+    def urandom(self, n):
+        self._k += 1
+        shape = self.shapes[self._r.randrange(len(self.shapes))]
+        b = bytearray(self._r.randbytes(n))
+        if n >= 4:
+            # two counter octets in the middle keep SPIs / nonces / IVs distinct within a run
+            b[n // 2 - 1], b[n // 2] = 1 + (self._k >> 8) % 255, self._k & 0xFF or 1
+        if n < 4 or shape == 'random':
+            return bytes(b)
+        if shape == 'lead00':
+            b[0] = 0
+        elif shape == 'trail00':
+            b[-1] = 0
+        elif shape == 'leadff':
+            b[0] = 0xFF
+        elif shape == 'trailff':
+            b[-1] = 0xFF
+        elif shape == 'lead0000' and n >= 8:
+            b[0] = b[1] = 0
+        elif shape == 'mid00' and n >= 8:
+            b[n // 2 + 1] = 0
+        elif shape == 'top':
+            b[0] |= 0x80
+            b[-1] |= 0x80
+        elif shape == 'lead00trail00':
+            b[0] = b[-1] = 0
+        elif shape == 'allff-ish':
+            for i in range(n):
+                if n < 4 or i not in (n // 2 - 1, n // 2):
+                    b[i] = 0xFF
+        self.drawn[(n if n <= 16 else 'long', shape)] += 1
+        return bytes(b)
+
+
+class _EdgeNonceLengths:
+    """Stands in for SystemRandom inside message.py: the nonce length is drawn from the edges of the legal range (16, 17, 32, 255) more often than not."""
+
+    def __init__(self, seed):
+        self._r = random.Random(seed)
+
+    def __call__(self):
+        return self
+
+    def randrange(self, a, b=None, *rest):
+        if (a, b) == (16, 256) and self._r.random() < 0.8:
+            return self._r.choice((16, 16, 17, 32, 64, 255, 255))
+        return self._r.randrange(a, b, *rest) if b is not None else self._r.randrange(a)
+
+    def __getattr__(self, n):
+        return getattr(self._r, n)
+
+
+class special_values:
+    """Context manager: while active, every os.urandom() of the repository's modules (IKE and CHILD SPIs, nonces, IVs, cookie secret) returns edge-shaped values and the
+    nonce length sits at the edges of its range. `drawn` says what was handed out."""
+
+    def __init__(self, seed, shapes=None):
+        self.os = _SpecialOs(seed, shapes)
+        self.sr = _EdgeNonceLengths(seed + 7)
+        self.saved = []
+
+    @property
+    def drawn(self):
+        return self.os.drawn
+
+    def __enter__(self):
+        for mod in (r_ikesa, r_msg, r_crypto, r_ctl):
+            if getattr(mod, 'os', None) is not None:
+                self.saved.append((mod, 'os', mod.os))
+                mod.os = self.os
+        if hasattr(r_msg, 'SystemRandom'):
+            self.saved.append((r_msg, 'SystemRandom', r_msg.SystemRandom))
+            r_msg.SystemRandom = self.sr
+        return self
+
+    def __exit__(self, *exc):
+        for mod, n, v in self.saved:
+            setattr(mod, n, v)
+        self.saved = []
+        return False
+
+
+def special_pass(ck, salt, body):
+    """Runs body() with edge-shaped random values in the repository's modules and records what was handed out (counters special_values.*)."""
+    with special_values(ck.seed * 1000003 + salt) as sv:
+        body()
+    for k, v in sv.drawn.items():
+        ck.count('special_values.urandom.' + k[1], v)
+        ck.seen('special_values.shapes', (str(k[0]), k[1]))
+
+
 def seed_repo_randomness(seed):
     r_ikesa.random = _SeededRandomModule(seed)
     r_xfrm.random = _SeededRandomModule(seed + 1)
